@@ -283,6 +283,13 @@ def r09b(model, ctx):
                   f"{PYSIM}:{f.lineno}")
     f = model.func(f"{PYSIM}::_PySignalState.reset")
     ok = any(unparse(s) == "self.curr = self.next = self.signal.init" for s in f.body)
+    if not ok:
+        from ..engine.symx import run_paths as _rp
+        ps = [p_ for p_ in _rp(list(f.body)) if p_.how != "raise"]
+        ok = bool(ps)
+        for p_ in ps:
+            st = {unparse(t): unparse(e.value) for e in p_.effects if isinstance(e, ast.Assign) for t in e.targets}
+            ok = ok and st.get("self.curr") == "self.signal.init" and st.get("self.next") == "self.signal.init"
     ctx.check(ok, R, "_PySignalState.reset", "curr = next = signal.init", "a signal slot must be reset to signal.init (both "
               "curr and next)", f"{PYSIM}:{f.lineno}")
     f = model.func(f"{PYSIM}::_PyMemoryState.reset")
